@@ -19,21 +19,21 @@ CHECKS = {
     "C02": ("generated proposals/rejection masks/read sets on model graphs; snapshot differential oracle (pre-proposal vs fully-proposed clone)",
             "Generated proposals (incl. overflowing ones), read sets and rejection masks on the real model graphs; after revert each cached row must equal the pre-proposal snapshot (rejected) or the from-scratch proposed value (accepted), bit-exact, and later aggregated reads equal scratch evaluation. Also driven end-to-end through sampler.sample.",
             "Reads between proposal and decision respect the documented contract; trusts torch.", "DESIGN.md section 5/C02"),
-    "C03": ("recorded-draw differential oracle on single sampler steps (Hypothesis-generated states, temperatures, scales)",
+    "C03": ("recorded-draw differential oracle on 1-3 consecutive sampler calls (Hypothesis-generated states incl. extreme and far-from-mode ones, temperatures, scales, block orders)",
             "Each generated sampler step is re-derived from the recorded normal/uniform draws and from likelihood terms evaluated on a fresh clone: proposal support and value, acceptance iff u < exp(-D), post-state, locality, and draw accounting. Per-step rule only; not a statement about stationarity.",
             "torch.randn/rand are wrapped pass-through; terms are validated against scipy by C08.", "DESIGN.md section 5/C03"),
     "C04": ("generated cohorts + short seeded fits; float64 reference of the documented update formulas at every iteration",
-            "Every maximisation step of generated short fits (all kinds/noise structures/missingness) is compared with an independent float64 implementation of the documented closed forms using the statistics in force and the pre-step parameters.",
+            "Every maximisation step of generated short fits (all kinds/noise structures/missingness) is compared with an independent float64 implementation of the documented closed forms using the statistics in force and the pre-step parameters; mixture per-cluster means and probabilities against floored-softmax responsibilities, also on pre-step states with one individual moved far from every cluster.",
             "Tolerance derived from conditioning of the variance formula in float32; LeaspyConvergenceError counts as a rejected input.", "DESIGN.md section 5/C04"),
     "C05": ("exhaustive configuration grid + Hypothesis configurations; recorded s_k / S_k vs reference Robbins-Monro schedule",
-            "Grid of (n_iter, burn-in fraction or count, power) is enumerated and each run's recorded statistics are compared with the documented schedule bit-exactly; out-of-range powers must be refused.",
+            "Grid of (n_iter, burn-in fraction or count, power, annealing block shorter/longer than the memory-less phase, second run of one algorithm object) is enumerated and each run's recorded statistics are compared with the documented schedule bit-exactly; out-of-range powers (incl. NaN and infinities) must be refused.",
             "Reads int(frac*n_iter) as the documented float formula.", "DESIGN.md section 5/C05"),
     "C06": ("metamorphic: fill values under the mask and extra padding must not change any result (generated cohorts, tensor surgery)",
             "Generated cohorts are evaluated twice - as loaded and with masked entries overwritten by {0,1e30,-7.5,NaN,inf} and/or extra padded visits - and likelihood terms, statistics, updates, fits, personalisation and estimates must agree.",
             "Bit-exact unless padding changes reduction order (rtol 1e-5).", "DESIGN.md section 5/C06"),
     "C07": ("metamorphic: perturb/permute other individuals, alone-vs-batch, worker count and hash-seed sub-processes",
-            "Generated cohorts and latents: individual i's terms, sampler decisions and personalised parameters are compared bit-exactly after replacing the other individuals, permuting them (with permuted draws), and across n_jobs and PYTHONHASHSEED values.",
-            "Draws are position-indexed; totals compared at rtol 1e-5.", "DESIGN.md section 5/C07"),
+            "Generated cohorts and latents: individual i's terms, sampler decisions and personalised parameters are compared bit-exactly after replacing the other individuals (incl. one neighbour whose likelihood overflows), permuting them (with permuted draws), and across n_jobs and PYTHONHASHSEED values.",
+            "Draws are position-indexed; totals and alone-vs-batch compared at rtol 1e-5 plus 1e-5 of the summed magnitudes of cancelling attachment entries.", "DESIGN.md section 5/C07"),
     "C08": ("generated values/parameters/layouts vs scipy.stats reference densities",
             "Generated inputs in all broadcasting layouts used by the models; Normal, Bernoulli and right-censored Weibull terms must equal -log density from scipy entry by entry, plus metamorphic censoring/penalty relations, at distribution and at model level.",
             "Ranges keep the Weibull hazard inside float64 normal range; mixture/multivariate families out of scope.", "DESIGN.md section 5/C08"),
@@ -41,13 +41,13 @@ CHECKS = {
             "Generated admissible parameters and age containers of every shape: estimates must match the documented closed form, stay in [0,1], be monotone, and be returned for exactly the requested ids/ages in order.",
             "float32 tolerance rtol 2e-5 / atol 2e-6.", "DESIGN.md section 5/C09"),
     "C10": ("generated states: before/after re-centring invariance + independent orthogonality predicate",
-            "Generated states with non-zero mean xi: re-centring must leave model/attachments unchanged and zero the mean; mixing-matrix rows must be orthogonal to the metric-weighted velocity.",
+            "Generated states with non-zero mean xi: re-centring must leave model/attachments unchanged and zero the mean; mixing-matrix rows must be orthogonal to the metric-weighted velocity (cosines; velocity scales from 1e-12 to 1e6, float32 and float64, every strip column).",
             "rtol 1e-5 (re-centring changes float32 operands).", "DESIGN.md section 5/C10"),
     "C11": ("differential: same seeded call under generated prior activity and logging configurations must be bit-identical",
-            "Generated (algorithm, kind, seed, prior RNG activity, logging options): results must be bit-identical to the quiet reference run and the run must complete.",
+            "Generated (algorithm, kind, seed incl. 0 and 2**31-1, prior RNG activity, logging options, n_jobs, settings given in memory or through a JSON file, reuse of one algorithm object): results must be bit-identical to the quiet reference run and the run must complete.",
             "Only documented-valid OutputsSettings combinations.", "DESIGN.md section 5/C11"),
     "C12": ("round-trip save/load/save on generated and fitted models + prior-mode self-consistency",
-            "Generated hyperparameters/parameters/names and really fitted models: save->load->save must reproduce class, hyperparameters, parameters, estimates and the file.",
+            "Generated hyperparameters/parameters/names and really fitted models (algorithm configuration drawn per fit: burn-in fraction or explicit count, annealing, sampler kind): population variables equal their prior modes after fit, derived quantities agree with what is saved, save->load->save must reproduce class, hyperparameters, parameters, estimates and the file.",
             "leaspy_version key ignored in the byte comparison.", "DESIGN.md section 5/C12"),
     "C13": ("bounded-exhaustive call histories + Hypothesis state machine; snapshot and twin-model differential oracles",
             "All call histories up to length 3 and generated longer ones: model parameters bit-identical around non-fit calls, no data left behind, inputs unmodified, and results equal those of a save/load twin.",
@@ -56,7 +56,7 @@ CHECKS = {
             "Generated tables in all four layouts: tensors must equal an independent pandas reference, be row-order independent, round-trip, and each injected malformation must raise LeaspyDataInputError; caller frame untouched.",
             "Ages distinct after 6-digit rounding (documented precondition).", "DESIGN.md section 5/C14"),
     "C15": ("bounded-exhaustive digraph enumeration + Hypothesis graphs + model spec graphs vs Floyd-Warshall reference",
-            "All digraphs on <=4 nodes (incl. self-loops; thorough: all loop-free on 5 nodes) under 3 name assignments, sampled 6-14 node graphs and all shipped model graphs are built with the real code and compared with an independent closure/validity oracle; determinism checked against insertion order and string-hash seeds.",
+            "All digraphs on <=4 nodes (incl. self-loops; thorough: all loop-free on 5 nodes) under 3 name assignments, sampled 6-40 node graphs (layered and deep chains, names equal up to case, definitions given as explicit dependency sets or as functions with defaulted keyword-only parameters / functools.partial) and all shipped model graphs are built with the real code and compared with an independent closure/validity oracle; determinism checked against insertion order and string-hash seeds.",
             "Exhaustive only up to the stated sizes; larger graphs sampled.", "DESIGN.md section 5/C15"),
     "C16": ("round trips across dict/table/tensor/CSV/JSON on generated ids/names/shapes/values + rejection predicates",
             "Generated identifiers, names, shapes and values are pushed through every conversion and back; ids, names, shapes (modulo scalar == length-1 in 2-D forms) and values must be preserved; malformed additions must be refused and leave the container unchanged.",
@@ -65,13 +65,13 @@ CHECKS = {
             "Generated cohorts and settings: ids aligned, shapes, finiteness; scipy result never worse than its start (objective recomputed independently); mean/mode posterior equal the mean / arg-min over the recorded kept draws of the same chain.",
             "Configurations keeping no draw are excluded.", "DESIGN.md section 5/C17"),
     "C18": ("generated designs (valid and invalid) with validity predicates over the simulated output",
-            "Generated random and table-driven designs: exact ids, increasing unique ages, finite values in [0,1], one parameter row per id; invalid designs refused with LeaspyAlgoInputError before any draw.",
+            "Generated random and table-driven designs (tables with default, permuted, gapped, string and duplicated row labels, any row order; reused design objects; consecutive simulations in one process): exact ids, increasing unique ages, finite values in [0,1], one parameter row per id; invalid designs refused with LeaspyAlgoInputError before any draw.",
             "Designs with non-positive mean spacing and positive std excluded (possible non-termination).", "DESIGN.md section 5/C18"),
-    "C19": ("exhaustive annealing grid + Hypothesis acceptance histories vs reference schedules",
-            "Grid of annealing configurations and generated acceptance histories: temperature trace and proposal scales must match the documented envelopes and change points; every accepted configuration must run.",
+    "C19": ("exhaustive annealing grid + Hypothesis acceptance histories + real fits and personalisations with the temperature and scales handed to every sampler call recorded, vs reference schedules",
+            "Grid of annealing configurations and generated acceptance histories, plus real mcmc_saem / mean_posterior / mode_posterior runs: temperature trace and proposal scales must match the documented envelopes and change points; every accepted configuration must run.",
             "|T-1| <= 1e-9 counts as exactly 1 (accumulated decrement).", "DESIGN.md section 5/C19"),
     "C20": ("generated histories/cohorts vs pandas reference (constant) and statsmodels MixedLM refit + closed-form BLUP (LME)",
-            "Generated visit histories and univariate cohorts: constant predictions equal the pandas reference at all ages; LME random effects equal statsmodels' conditional means and the closed form; trajectories affine.",
+            "Generated visit histories and univariate cohorts: constant predictions equal the pandas reference at all ages (also when one model object personalises several cohorts with permuted columns); LME random effects equal statsmodels' conditional means and the closed form; trajectories affine and equal to the line of the current parameters along fit / estimate / refit histories on one object.",
             "statsmodels convergence failures discard the case (counted).", "DESIGN.md section 5/C20"),
 }
 
